@@ -166,11 +166,13 @@ class Result:
         self.decisions = 0
         self.kernel_errors: List[str] = []
         self.virtual_seconds = 0.0
+        self.post_run = None
 
 
 class Driver:
     def __init__(self, exp, chooser, script, on_launch=None, max_decisions=4000, max_items=60000,
-                 stuck_after_idle_waits=80, do_restart_sources=None, on_component_run=None, memoized=()):
+                 stuck_after_idle_waits=80, do_restart_sources=None, on_component_run=None, memoized=(),
+                 post_run=None):
         self.exp = exp
         self.chooser = chooser
         self.script = script
@@ -192,6 +194,7 @@ class Driver:
         self.run_called = collections.Counter()       # ComponentState.run() invocations per node
         self.finish_requested: Dict[str, str] = {}    # first final state handed to ComponentState.finish() per node
         self.memoized = set(memoized)                  # nodes for which the (stubbed) memoization lookup hits
+        self.post_run = post_run                       # called after the stages ran, while the patches are still active
 
     # -- hooks ------------------------------------------------------------------------------------
     def _on_launch(self, ref, job, n, reason):
@@ -305,6 +308,8 @@ class Driver:
                 except HarnessAbort as a:
                     res.aborted = a.why
             res.states = {r: c.state for r, c in self.components.items()}
+            if self.post_run is not None and res.aborted is None:
+                res.post_run = self.post_run(self)
             res.launch_log = list(self.backend.log)
             res.launch_kinds = list(self.backend.kinds)
             res.decisions = self.decisions
